@@ -92,10 +92,26 @@ def pack_names():
             message('Message', [field('message', 1, Q('Message')), field('field', 2, 'string')]),
             message('Field', [field('f', 1, 'string')]),
             ]
+    # nested message reached through a parent field *and* through nested_messages, with a map whose value type lives in
+    # another file whose module needs an alias here (a field named `common` exists in this file)
+    hm, hme = map_field(Q('Holder.Nested'), 'shared_by_key', 1, 'string', Q('Shared'))
+    msgs.append(message('Holder', [field('nested', 1, Q('Holder.Nested')), field('common', 2, 'string'),
+                                   field('direct', 3, Q('Shared'))],
+                        nested=[message('Nested', [hm, field('one', 2, Q('Shared')), field('tone', 3, 'enum:' + Q('SharedTone'))], nested=[hme])]))
+    # nested fields named like the `proto` module / like a sibling module, followed by further fields
+    msgs.append(message('Outer2', [field('inner', 1, Q('Outer2.Inner')), field('inner3', 2, Q('Outer2.Inner3'))],
+                        nested=[message('Inner', [field('proto', 1, 'string'), field('after', 2, 'string'), field('n', 3, 'int32')]),
+                                message('Inner3', [field('common', 1, 'string'), field('shared', 2, Q('Shared')),
+                                                   field('tones', 3, 'enum:' + Q('SharedTone'), repeated=True)])]))
     mf, me = map_field(Q('ReservedMaps'), 'global', 1, 'string', Q('Leaf2'))
     msgs.append(message('ReservedMaps', [mf], nested=[me]))
+    common = file('acme/wire/v1/common.proto', P, messages=[message('Shared', [field('s', 1, 'string')])],
+                  enums=[enum('SharedTone', 'SHARED_TONE_UNSPECIFIED', 'LOUD')])
     f = file('acme/wire/v1/names.proto', P, messages=msgs, enums=[enum('Kw', 'KW_UNSPECIFIED', 'CLASS', 'Global', 'IMPORT')])
-    return [f], []
+    std = desc.std_dep_names()
+    common.dependency.extend(std)
+    f.dependency.extend(std + [common.name])
+    return [common, f], []
 
 
 def keyword_enum_values_pack():
